@@ -172,13 +172,13 @@ theorem stego_prefix (lbl : List (List UInt8)) (w : Nat) (pico : Bytes)
 theorem header_length (t : Bytes) : (header t).length = 8 := rfl
 
 theorem getBytes_error (code : Bytes)
-    (h : ¬ (if (compress code).length < code.length then code.length < 65536 ∧ 8 + (compress code).length ≤ codeAreaLen
+    (h : ¬ (if (compress code).length + 8 < code.length then code.length < 65536 ∧ 8 + (compress code).length ≤ codeAreaLen
       else code.length ≤ codeAreaLen)) :
     ∃ e, getBytesFromCode code = .error e := by
   unfold getBytesFromCode
   generalize compress code = comp at h ⊢
   simp only [List.length_append, header_length]
-  by_cases hc : comp.length < code.length
+  by_cases hc : comp.length + 8 < code.length
   · simp only [hc, if_true] at h ⊢
     by_cases h1 : code.length / 256 > 255
     · exact ⟨_, by rw [if_pos h1]⟩
@@ -189,7 +189,7 @@ theorem getBytes_error (code : Bytes)
   · simp only [hc, if_false] at h ⊢
     exact ⟨_, by rw [if_pos (by omega)]⟩
 
-theorem getBytes_compressed (code : Bytes) (hc : (compress code).length < code.length)
+theorem getBytes_compressed (code : Bytes) (hc : (compress code).length + 8 < code.length)
     (h1 : code.length < 65536) (h2 : 8 + (compress code).length ≤ codeAreaLen) :
     getBytesFromCode code = .ok (header code ++ compress code ++
       List.replicate (codeAreaLen - (8 + (compress code).length)) 0) := by
@@ -198,7 +198,7 @@ theorem getBytes_compressed (code : Bytes) (hc : (compress code).length < code.l
   simp only [List.length_append, header_length]
   rw [if_pos hc, if_neg (by omega), if_neg (by omega)]
 
-theorem getBytes_raw (code : Bytes) (hc : ¬ (compress code).length < code.length)
+theorem getBytes_raw (code : Bytes) (hc : ¬ (compress code).length + 8 < code.length)
     (h1 : code.length ≤ codeAreaLen) :
     getBytesFromCode code = .ok (code ++ List.replicate (codeAreaLen - code.length) 0) := by
   unfold getBytesFromCode
